@@ -3,16 +3,21 @@
 set -u
 b="$1"
 cd /verif
+git checkout -q -- evidence 2>/dev/null    # evidence of other runs is regenerated, never merged by hand
+if ! git diff --quiet; then git add -A; git commit -qm "wip before merging $b"; fi
 git merge --no-commit --no-ff "$b" >/tmp/merge.log 2>&1
+if grep -q "Aborting\|fatal" /tmp/merge.log; then echo "MERGE FAILED:"; cat /tmp/merge.log; exit 1; fi
 for f in MANIFEST.json lean/JinjaV/Wire/All.lean lean/JinjaV.lean; do
   git checkout --ours -- "$f" 2>/dev/null; git add "$f" 2>/dev/null
 done
 for f in $(git diff --name-only --diff-filter=U); do
   case "$f" in
     evidence/*) git checkout --theirs -- "$f"; git add "$f";;
+    lean/JinjaV/Gen/*|translate/baseline/*) git checkout --ours -- "$f"; git add "$f"; regen=1;;   # regenerated from /repo below
     *) echo "CONFLICT: $f";;
   esac
 done
+if [ "${regen:-0}" = 1 ]; then /venv/bin/python translate/update_baseline.py >/dev/null 2>&1; git add lean/JinjaV/Gen translate/baseline; fi
 python3 tools/gen_wire_all.py
 /venv/bin/python tools/mk_manifest.py
 git status --short | grep -v "^A \|^M " | head
